@@ -221,7 +221,14 @@ def infer_hint(
         # container items that are simple strings into references. Since doing
         # so would strongly conflict with common sense and sane semantics, this
         # function preserves strings as simple PEP-noncompliant objects.
-        not isinstance(obj, str)
+        not isinstance(obj, str) and
+        # This object is either the root object passed by the caller *OR* the
+        # "None" singleton (which satisfies itself as a hint). A hint that is
+        # merely an *ITEM* of a container being inferred is an arbitrary object
+        # from the perspective of that container: that item does *NOT* satisfy
+        # itself as a hint (e.g., the "list[int]" item of the list "[list[int]]"
+        # is *NOT* a list of integers).
+        (not __beartype_obj_ids_seen__ or obj is None)
     ):
         # Return this PEP-compliant type hint as is.
         return obj
